@@ -37,6 +37,46 @@ TOOLS = ["persim.landscapes.tools.snap_pl", "persim.landscapes.tools.lc_approx",
 ALL_LAZY = set().union(*LAZY.values())
 
 
+def _memo_slot(project, ev) -> bool:
+    """the store fills or clears a private memo slot of the operand: `_x` is only ever assigned None, in __init__, or under a
+    test that reads `_x` itself (`if self._x is None or self._x[0] != key: self._x = (key, build(...))`).  Whether the key is
+    complete is the memo rule's question (ST-CACHE); filling a memo does not change what the operand stands for."""
+    owner = project.functions.get(ev.func)
+    return _memo_slot_attr(project, getattr(owner, "cls", None), ev.attr)
+
+
+def _memo_slot_attr(project, cls, attr) -> bool:
+    if not attr.startswith("_") or attr.startswith("__"):
+        return False
+    if cls is None:
+        return False
+    n_guarded = 0
+    for k in cls.mro(project):
+        for m in k.methods.values():
+            if not isinstance(m.node, ast.FunctionDef) or not m.node.args.args:
+                continue
+            me = m.node.args.args[0].arg
+            parents = {id(c): p_ for p_ in ast.walk(m.node) for c in ast.iter_child_nodes(p_)}
+            for st in ast.walk(m.node):
+                if not (isinstance(st, ast.Assign) and any(isinstance(t, ast.Attribute) and t.attr == attr for t in st.targets)):
+                    continue
+                if isinstance(st.value, ast.Constant) and st.value.value is None:
+                    continue
+                if m.name == "__init__":
+                    continue
+                x, guarded = st, False
+                while id(x) in parents:
+                    x = parents[id(x)]
+                    if isinstance(x, ast.If) and any(isinstance(a_, ast.Attribute) and a_.attr == attr and isinstance(a_.value, ast.Name)
+                                                     and a_.value.id == me for a_ in ast.walk(x.test)):
+                        guarded = True
+                        break
+                if not guarded:
+                    return False
+                n_guarded += 1
+    return True
+
+
 def check_effects(project: Project, rep):
     oa = own_analysis(project)
     targets = []
@@ -63,9 +103,13 @@ def check_effects(project: Project, rep):
             if not ev.origin.is_arg:
                 continue
             if ev.kind == "attrstore":
-                in_compute = ev.func.endswith(".compute_landscape")
-                if not (ev.attr in ALL_LAZY and in_compute):
-                    bad_attr.append(ev)
+                in_compute = ev.func.endswith(".compute_landscape") or any("compute_landscape" in c_.split("→")[-1] for c_ in ev.chain)
+                lazy_name = ev.attr in ALL_LAZY or (ev.attr.startswith("_") and ev.attr[1:] in ALL_LAZY)   # a property's backing field
+                if lazy_name and in_compute:
+                    continue
+                if _memo_slot(project, ev):
+                    continue
+                bad_attr.append(ev)
             elif ev.kind == "write":
                 bad_write.append(ev)
         for ev in bad_attr:
@@ -136,6 +180,10 @@ def check_lazy(project: Project, rep):
         for st in stores:
             sn = cfg.node_of(st)
             if st.targets[0].attr not in LAZY[cq]:
+                if _memo_slot_attr(project, c, st.targets[0].attr):
+                    rep.discharged("AR-LAZY", fi, st, f"`{st.targets[0].attr}` is a private memo slot (filled under a test on itself)",
+                                   nontrivial=False)
+                    continue
                 rep.refuted("AR-LAZY", fi, st, f"compute_landscape writes `{st.targets[0].attr}`, which is not part of the lazy cache")
                 continue
             if sn is not None and tn is not None and cfg.dominated_by_branch(sn.id, tn.id, False):
